@@ -6,6 +6,8 @@ import F1Verif.Generated.Facts
 import F1Verif.Expected
 namespace F1.Props.FactsC14
 
+-- (file_validateCommonFields, file_validateCommonFieldsOfStage, file_validateConstantStage, file_validateRampStage, file_validateStagedStage, file_validateGaussianStage, file_validateUsersStage: re-proved semantically on the regenerated MiniGo programs, see Props/Refine*.lean)
+
 theorem fact_rate_ParseRate : F1.Generated.skel_rate_ParseRate = F1.Expected.skel_rate_ParseRate := by rfl
 theorem fact_rate_startsWithLetter : F1.Generated.skel_rate_startsWithLetter = F1.Expected.skel_rate_startsWithLetter := by rfl
 theorem fact_staged_ParseStages : F1.Generated.skel_staged_ParseStages = F1.Expected.skel_staged_ParseStages := by rfl
@@ -26,13 +28,6 @@ theorem fact_runcmd_Execute : F1.Generated.skel_runcmd_Execute = F1.Expected.ske
 theorem fact_run_NewRun : F1.Generated.skel_run_NewRun = F1.Expected.skel_run_NewRun := by rfl
 theorem fact_file_ParseConfigFile : F1.Generated.skel_file_ParseConfigFile = F1.Expected.skel_file_ParseConfigFile := by rfl
 theorem fact_file_parseStage : F1.Generated.skel_file_parseStage = F1.Expected.skel_file_parseStage := by rfl
-theorem fact_file_validateCommonFields : F1.Generated.skel_file_validateCommonFields = F1.Expected.skel_file_validateCommonFields := by rfl
-theorem fact_file_validateCommonFieldsOfStage : F1.Generated.skel_file_validateCommonFieldsOfStage = F1.Expected.skel_file_validateCommonFieldsOfStage := by rfl
-theorem fact_file_validateConstantStage : F1.Generated.skel_file_validateConstantStage = F1.Expected.skel_file_validateConstantStage := by rfl
-theorem fact_file_validateRampStage : F1.Generated.skel_file_validateRampStage = F1.Expected.skel_file_validateRampStage := by rfl
-theorem fact_file_validateStagedStage : F1.Generated.skel_file_validateStagedStage = F1.Expected.skel_file_validateStagedStage := by rfl
-theorem fact_file_validateGaussianStage : F1.Generated.skel_file_validateGaussianStage = F1.Expected.skel_file_validateGaussianStage := by rfl
-theorem fact_file_validateUsersStage : F1.Generated.skel_file_validateUsersStage = F1.Expected.skel_file_validateUsersStage := by rfl
 theorem fact_file_Builder : F1.Generated.skel_file_Builder = F1.Expected.skel_file_Builder := by rfl
 theorem fact_f1_execute : F1.Generated.skel_f1_execute = F1.Expected.skel_f1_execute := by rfl
 theorem fact_f1_ExecuteWithArgs : F1.Generated.skel_f1_ExecuteWithArgs = F1.Expected.skel_f1_ExecuteWithArgs := by rfl
